@@ -28,6 +28,9 @@ Theorems (all for EVERY tree shape, every query, every number of calls):
 import SharkVerif.Lemmas.NNRun
 import SharkVerif.Lemmas.KD
 import SharkVerif.Lemmas.NNK1
+import SharkVerif.Lemmas.KDSearch
+import SharkVerif.Lemmas.PivTree
+import SharkVerif.Lemmas.Vote
 namespace SharkVerif.NN
 
 /-- **radius_is_lower_bound.** In every state reachable from the constructor by
@@ -101,11 +104,11 @@ agree line by line). -/
 def k1Tree : TTree :=
   .node .unq 0 true
     (.node .unq 0 false
-      (.leaf false ((81 : Rat) / 4) ⟨144, 3, [0, 1]⟩)
-      (.leaf false 0 ⟨4, 4, [2, 3]⟩))
+      (.leaf false ((81 : Rat) / 4) [⟨144, 3, [0, 1]⟩])
+      (.leaf false 0 [⟨4, 4, [2, 3]⟩]))
     (.node .unq ((1681 : Rat) / 4) true
-      (.leaf false ((1681 : Rat) / 4) ⟨1444, 5, [4, 5]⟩)
-      (.leaf false ((8281 : Rat) / 4) ⟨2304, 6, [6, 7]⟩))
+      (.leaf false ((1681 : Rat) / 4) [⟨1444, 5, [4, 5]⟩])
+      (.leaf false ((8281 : Rat) / 4) [⟨2304, 6, [6, 7]⟩]))
 
 /-- true squared distances of the 8 points to the query 12 -/
 def k1Dist : Nat → Rat := fun i => [144, 49, 4, 9, 1444, 1849, 2304, 2809].getD i 0
@@ -123,7 +126,7 @@ theorem next_wrong_without_leafuniform :
 theorem k1Tree_hypotheses : Fresh k1Tree ∧ LbAdm k1Dist k1Tree ∧ LeavesNonempty k1Tree := by
   refine ⟨?_, ?_, ?_⟩
   · simp [k1Tree, Fresh]
-  · simp [k1Tree, LbAdm, TTree.pts, k1Dist]; decide +kernel
+  · simp [k1Tree, LbAdm, TTree.pts, k1Dist, qpts]; decide +kernel
   · simp [k1Tree, LeavesNonempty]
 
 /-- **k1_exact_for_leaf_distance.**  What the search computes on a tree WITHOUT `LeafUniform`
@@ -201,7 +204,7 @@ is the squared Euclidean distance: a `KHCTree` over `LinearKernel` searches the 
 kd- and LC-trees (the correspondence additionally runs `KHCTree` over the kernel `(<x,y>+1)^2`,
 tree kind `khcp`, whose feature distance `featureDist2 (polyKernel 2 1)` is a different metric). -/
 theorem featureDist2_linear : ∀ (x y : Point), x.length = y.length → featureDist2 dot x y = dist2 x y
-  | [], [], _ => by simp [featureDist2, dot, dist2]; grind
+  | [], [], _ => by simp [featureDist2, dot, dist2] <;> grind
   | [], _ :: _, h => by simp at h
   | _ :: _, [], h => by simp at h
   | a :: as, b :: bs, h => by
@@ -234,20 +237,213 @@ theorem nn_model_backend_independent (numClasses : Nat) (w : Rat → Rat)
 
 example : predictClass ratArith 2 (fun _ => 1) [(4, 0), (9, 1), (9, 1)] = 1 := by decide +kernel
 
+/-! ### End to end: construction + query, per tree type
+
+`pq = false` is the C++ as it is (leaf queue: one entry per leaf, distance of its first point), `pq = true`
+the point queue of the proposed repair of K1 (findings_proposed/C17-K1.patch).  The driver runs exactly
+these functions (`kdTree`, `adoptKD`, `kdTrace`, `pivTrace`, `treeKnn`) on every generated case. -/
+
+/-- a search-ready trace tree over the points `0..n-1` answers the first `k ≤ n` calls with the `k` smallest
+distances in order (`tree_knn_eq_bruteforce` re-stated against the brute-force list of ALL points) -/
+theorem search_exact_of_ready (dist : Nat → Rat) (T : TTree) (n : Nat) (hf : Fresh T) (ha : LbAdm dist T)
+    (hu : LeafUniform dist T) (hne : LeavesNonempty T) (hp : T.pts.Perm (List.range n)) (k : Nat) (hk : k ≤ n) :
+    (treeKnn T k).map (Option.map Prod.fst) = ((sortVals ((List.range n).map dist)).take k).map some := by
+  have hl : T.pts.length = n := by simpa using hp.length_eq
+  rw [tree_knn_eq_bruteforce dist T hf ha hu hne k (by omega)]
+  have : sortVals (T.pts.map dist) = sortVals ((List.range n).map dist) :=
+    sorted_perm_unique _ _ (((sortVals_perm _).trans (hp.map dist)).trans (sortVals_perm _).symm)
+      (sortVals_sorted _) (sortVals_sorted _)
+  rw [this]
+
+/-- **split_separates.**  Every successful `BinaryTree::splitList` puts the values below the threshold to the
+left and the values above it to the right; no value equals the threshold (it is the midpoint between the
+largest left and the smallest right value), both sides are non-empty and strictly smaller. -/
+theorem split_separates (val : Nat → Rat) (idx : List Nat) (s : Split) (hn : 2 ≤ idx.length)
+    (h : splitList val idx = some s) :
+    (∀ i ∈ s.left, val i < s.thr) ∧ (∀ i ∈ s.right, s.thr < val i) ∧ s.left ≠ [] ∧ s.right ≠ [] ∧
+    s.left.length < idx.length ∧ s.right.length < idx.length :=
+  ⟨(splitList_sep hn h).1, (splitList_sep hn h).2, (splitList_nonempty hn h).1, (splitList_nonempty hn h).2,
+   (splitList_length_lt hn h).1, (splitList_length_lt hn h).2⟩
+example : (splitList (fun i => [3, 1, 2, 2].getD i 0) [0, 1, 2, 3]).map (fun s => (s.left, s.right, s.thr)) =
+    some ([1], [0, 2, 3], 3 / 2) := by decide +kernel
+
+/-- **split_fails_iff_all_equal.**  "partitioning failed, all values are equal" is exact. -/
+theorem split_fails_iff_all_equal (val : Nat → Rat) (idx : List Nat) (hn : 2 ≤ idx.length) :
+    splitList val idx = none ↔ ∀ i ∈ idx, ∀ j ∈ idx, val i = val j :=
+  splitList_none_iff hn
+example : (splitList (fun _ => 7) [0, 1, 2]).isNone = true := by decide +kernel
+
+/-- **kd_construction_terminates.**  The recursion of `KDTree::buildTree` never runs out of fuel: with any fuel
+≥ the number of points the result is the same tree (duplicates included: a cell of equal points is a leaf, every
+successful split makes both parts strictly smaller). -/
+theorem kd_construction_terminates (P : Nat → Point) (dim bucket : Nat) (hb : 1 ≤ bucket) (f1 f2 depth : Nat)
+    (idx : List Nat) (h1 : idx.length ≤ f1) (h2 : idx.length ≤ f2) :
+    buildKD P dim bucket f1 depth idx = buildKD P dim bucket f2 depth idx :=
+  buildKD_fuel P dim bucket hb f1 f2 depth idx h1 h2
+
+/-- **kd_bound_admissible.**  For every data set, dimension, bucket size and depth limit, and every leaf order /
+node ranks the real tree may have (`adoptKD`): `KDTree::squaredDistanceLowerBound` of every node never exceeds
+the true squared distance of any point stored below the node. -/
+theorem kd_bound_admissible (pq : Bool) (P : Nat → Point) (dim n maxDepth maxBucket : Nat) (real t : STree)
+    (hdim : 0 < dim) (hP : ∀ i < n, (P i).length = dim) (q : Point) (hq : q.length = dim)
+    (had : adoptKD (kdTree P dim n maxDepth maxBucket) real = some t) :
+    LbAdm (fun i => dist2 (P i) q) (kdTrace pq q (fun i => dist2 (P i) q) t Box.top) := by
+  have hs := adoptKD_sameCells had
+  have hperm : t.idx.Perm (List.range n) := (hs.idx_perm).symm.trans (indexList_perm P dim n maxDepth maxBucket)
+  refine kdTrace_lbAdm pq q _ (fun _ => rfl) t Box.top (hs.nodeBoxes (kdTree_nodeBoxes hdim)) ?_
+  intro i hi
+  rw [hP i (List.mem_range.mp (hperm.mem_iff.mp hi)), hq]
+
+/-- **kd_search_exact.**  The C++ as it is (leaf queue), kd-tree with bucket size 1 (`maxBucketSize` 0 or 1), any
+depth limit, any data (duplicates, points on split planes), any query, every `k ≤ n`: the distances reported by
+the first `k` calls of `next()` on the tree built by `KDTree` are exactly the `k` smallest squared distances, in
+non-decreasing order.  No hypothesis about the tree is left: admissibility, uniform leaves (a cell of positive
+extent is always split), non-empty leaves and the permutation property are all proved from the construction. -/
+theorem kd_search_exact (P : Nat → Point) (dim n maxDepth maxBucket : Nat) (real t : STree)
+    (hdim : 0 < dim) (hn : 0 < n) (hP : ∀ i < n, (P i).length = dim) (q : Point) (hq : q.length = dim)
+    (hb : maxBucket ≤ 1) (had : adoptKD (kdTree P dim n maxDepth maxBucket) real = some t)
+    (k : Nat) (hk : k ≤ n) :
+    (treeKnn (kdTrace false q (fun i => dist2 (P i) q) t Box.top) k).map (Option.map Prod.fst) =
+      ((sortVals ((List.range n).map fun i => dist2 (P i) q)).take k).map some := by
+  have hs := adoptKD_sameCells had
+  have hperm : t.idx.Perm (List.range n) := (hs.idx_perm).symm.trans (indexList_perm P dim n maxDepth maxBucket)
+  have hlen : ∀ i ∈ t.idx, (P i).length = dim := fun i hi => hP i (List.mem_range.mp (hperm.mem_iff.mp hi))
+  have hne := hs.leavesNE (kdTree_leavesNE (P := P) (dim := dim) (maxDepth := maxDepth) (maxBucket := maxBucket) hn)
+  exact search_exact_of_ready _ _ n (kdTrace_fresh _ _ _ _ _)
+    (kd_bound_admissible false P dim n maxDepth maxBucket real t hdim hP q hq had)
+    (kdTrace_leafUniform_lq q _ (fun _ => rfl) t Box.top (hs.leafSame (kdTree_leafSame hdim hb)) hne hlen)
+    (kdTrace_leavesNonempty _ _ _ t _ hne) (by rw [kdTrace_pts]; exact hperm) k hk
+
+/-- **kd_search_exact_point_queue.**  With the point queue (repair of K1) the same holds for EVERY bucket size. -/
+theorem kd_search_exact_point_queue (P : Nat → Point) (dim n maxDepth maxBucket : Nat) (real t : STree)
+    (hdim : 0 < dim) (hn : 0 < n) (hP : ∀ i < n, (P i).length = dim) (q : Point) (hq : q.length = dim)
+    (had : adoptKD (kdTree P dim n maxDepth maxBucket) real = some t) (k : Nat) (hk : k ≤ n) :
+    (treeKnn (kdTrace true q (fun i => dist2 (P i) q) t Box.top) k).map (Option.map Prod.fst) =
+      ((sortVals ((List.range n).map fun i => dist2 (P i) q)).take k).map some := by
+  have hs := adoptKD_sameCells had
+  have hperm : t.idx.Perm (List.range n) := (hs.idx_perm).symm.trans (indexList_perm P dim n maxDepth maxBucket)
+  have hne := hs.leavesNE (kdTree_leavesNE (P := P) (dim := dim) (maxDepth := maxDepth) (maxBucket := maxBucket) hn)
+  exact search_exact_of_ready _ _ n (kdTrace_fresh _ _ _ _ _)
+    (kd_bound_admissible true P dim n maxDepth maxBucket real t hdim hP q hq had)
+    (kdTrace_leafUniform_pq q _ t Box.top) (kdTrace_leavesNonempty _ _ _ t _ hne)
+    (by rw [kdTrace_pts]; exact hperm) k hk
+
+/-- non-vacuity: 3 points on a line with a duplicate, bucket size 1; the model tree adopts itself -/
+example : (adoptKD (kdTree (fun i => [[0], [4], [4]].getD i []) 1 3 0 1)
+    (kdTree (fun i => [[0], [4], [4]].getD i []) 1 3 0 1)).map
+      (fun t => treeKnn (kdTrace false [3] (fun i => dist2 ([[0], [4], [4]].getD i []) [3]) t Box.top) 3) =
+    some [some (1, 1), some (1, 2), some (9, 0)] := by decide +kernel
+
+/-- **lc_khc_construction.**  `LCTree::buildTree` / `KHCTree::buildTree` for every kernel, data set, pivot choice,
+bucket size and depth limit: the index list stays a permutation of `0..n-1`; at every inner node the left
+subtree lies strictly below and the right subtree strictly above the threshold in the projection onto the pivot
+line; no leaf is empty; the recursion terminates (any fuel ≥ n gives the same tree); a leaf larger than the
+bucket size exists only where all projections are equal. -/
+theorem lc_khc_construction (k : Point → Point → Rat) (P : Nat → Point) (pick : List Nat → Nat × Nat)
+    (n md mb : Nat) (hn : 0 < n) :
+    (pivTree k P pick n md mb).idx.Perm (List.range n) ∧ (pivTree k P pick n md mb).Sep k P ∧
+    (pivTree k P pick n md mb).LeavesNE ∧ (pivTree k P pick n md mb).LeafOK k P pick (normBucket mb) ∧
+    ∀ fuel, n ≤ fuel →
+      buildPiv k P pick (normBucket mb) fuel (normDepth md) (List.range n) = pivTree k P pick n md mb :=
+  ⟨pivTree_perm k P pick n md mb, buildPiv_sep k P pick (one_le_normBucket mb) _ _ _,
+   buildPiv_leavesNE k P pick (one_le_normBucket mb) _ _ _ (by
+     intro h; have := congrArg List.length h; simp at this; omega),
+   pivTree_bucket k P pick n md mb, fun fuel h => pivTree_fuel k P pick n md mb fuel h⟩
+
+/-- **lc_bound_admissible / khc_bound_admissible.**  `squaredDistanceLowerBound` of LC-trees (Euclidean) and of
+KHC-trees over the kernel `(<x,y>+1)^2` (ideal arithmetic): the bound of every node never exceeds the true squared
+(feature) distance of any point below the node - for every data set, bucket size, depth limit and every pivot
+choice that picks members of the cell (Cauchy-Schwarz in the feature space). -/
+theorem lc_bound_admissible (pq : Bool) (P : Nat → Point) (q : Point) (dim n md mb : Nat) (hn : 0 < n)
+    (hq : q.length = dim) (hP : ∀ i < n, (P i).length = dim) :
+    LbAdm (fun i => dist2 (P i) q)
+      (pivTrace pq dot P q (fun i => dist2 (P i) q) (pivTree dot P (pickFar dot P) n md mb) 0) :=
+  (lcTree_pickFar_search_ready pq n md mb hn hq hP).2.1
+
+theorem khc_bound_admissible (pq : Bool) (P : Nat → Point) (q : Point) (dim n md mb : Nat) (hn : 0 < n)
+    (hq : q.length = dim) (hP : ∀ i < n, (P i).length = dim) :
+    LbAdm (fun i => featureDist2 (polyKernel 2 1) (P i) q)
+      (pivTrace pq (polyKernel 2 1) P q (fun i => featureDist2 (polyKernel 2 1) (P i) q)
+        (pivTree (polyKernel 2 1) P (pickFar (polyKernel 2 1) P) n md mb) 0) :=
+  (khcTree_poly21_pickFar_search_ready pq n md mb hn hq hP).2.1
+
+/-- **lc_search_exact_point_queue.**  LC-tree, every bucket size and depth limit, point queue: exact search. -/
+theorem lc_search_exact_point_queue (P : Nat → Point) (q : Point) (dim n md mb : Nat) (hn : 0 < n)
+    (hq : q.length = dim) (hP : ∀ i < n, (P i).length = dim) (k : Nat) (hk : k ≤ n) :
+    (treeKnn (pivTrace true dot P q (fun i => dist2 (P i) q) (pivTree dot P (pickFar dot P) n md mb) 0) k).map
+        (Option.map Prod.fst) =
+      ((sortVals ((List.range n).map fun i => dist2 (P i) q)).take k).map some := by
+  obtain ⟨hf, ha, hne, hp⟩ := lcTree_pickFar_search_ready true (P := P) (q := q) n md mb hn hq hP
+  exact search_exact_of_ready _ _ n hf ha (pivTrace_leafUniform_pq _ _ _ _ _ _) hne hp k hk
+
+/-- **khc_search_exact_point_queue.**  KHC-tree over `(<x,y>+1)^2` (a non-Euclidean metric), point queue. -/
+theorem khc_search_exact_point_queue (P : Nat → Point) (q : Point) (dim n md mb : Nat) (hn : 0 < n)
+    (hq : q.length = dim) (hP : ∀ i < n, (P i).length = dim) (k : Nat) (hk : k ≤ n) :
+    (treeKnn (pivTrace true (polyKernel 2 1) P q (fun i => featureDist2 (polyKernel 2 1) (P i) q)
+        (pivTree (polyKernel 2 1) P (pickFar (polyKernel 2 1) P) n md mb) 0) k).map (Option.map Prod.fst) =
+      ((sortVals ((List.range n).map fun i => featureDist2 (polyKernel 2 1) (P i) q)).take k).map some := by
+  obtain ⟨hf, ha, hne, hp⟩ := khcTree_poly21_pickFar_search_ready true (P := P) (q := q) n md mb hn hq hP
+  exact search_exact_of_ready _ _ n hf ha (pivTrace_leafUniform_pq _ _ _ _ _ _) hne hp k hk
+
+/-- **lc_khc_search_exact_leaf_queue_partial.**  The C++ as it is (leaf queue) on LC/KHC trees: exact search
+whenever every leaf holds copies of one point.  `_partial`: `LeafUniform` stays a hypothesis - at bucket size 1
+a leaf with two points arises only where all projections onto a FARTHEST pair are equal (`lc_khc_construction`,
+`LeafOK`), i.e. where all points of the cell coincide; that last step (maximality of `farthestPair`) is not
+proved, the harness checks it on every real tree (`distinct-leaf-at-bucket-1` oracle).  For larger buckets the
+real code is wrong (K1). -/
+theorem lc_khc_search_exact_leaf_queue_partial (k : Point → Point → Rat) (P : Nat → Point)
+    (pick : List Nat → Nat × Nat) (q : Point) (dim n md mb : Nat) (hn : 0 < n)
+    (hcs : KernelCS k dim) (hq : q.length = dim) (hP : ∀ i < n, (P i).length = dim)
+    (hpick : ∀ ix : List Nat, 2 ≤ ix.length → (pick ix).1 ∈ ix ∧ (pick ix).2 ∈ ix)
+    (hnn : ∀ i < n, 0 ≤ featureDist2 k (P i) q)
+    (hu : LeafUniform (fun i => featureDist2 k (P i) q)
+      (pivTrace false k P q (fun i => featureDist2 k (P i) q) (pivTree k P pick n md mb) 0))
+    (kk : Nat) (hk : kk ≤ n) :
+    (treeKnn (pivTrace false k P q (fun i => featureDist2 k (P i) q) (pivTree k P pick n md mb) 0) kk).map
+        (Option.map Prod.fst) =
+      ((sortVals ((List.range n).map fun i => featureDist2 k (P i) q)).take kk).map some := by
+  obtain ⟨hf, ha, hne, hp⟩ := pivTree_search_ready false (k := k) (P := P) (pick := pick) (q := q) (dim := dim)
+    (dist := fun i => featureDist2 k (P i) q) n md mb hn hcs hq hP
+    (fun ix hix h2 => ⟨hP _ (hix _ (hpick ix h2).1), hP _ (hix _ (hpick ix h2).2)⟩) (fun _ _ => rfl) hnn
+  exact search_exact_of_ready _ _ n hf ha hu hne hp kk hk
+
+/-! ### When is the prediction determined? -/
+
+/-- **knn_prediction_determined.**  If there is no tie across the k-th boundary, or all data points at the k-th
+smallest distance carry the same label (`BoundaryOk`), then ANY two k-nearest-neighbour selections from the data
+(tree back-end, exhaustive back-end, whatever their tie-breaking) give the same votes, the same soft output for
+every distance weighting, and the same predicted class. -/
+theorem knn_prediction_determined {data a ra b rb : List (Rat × Nat)} {k : Nat}
+    (hk : BoundaryOk data k) (ha : IsKnnSel data a ra k) (hb : IsKnnSel data b rb k)
+    (numClasses : Nat) (w : Rat → Rat) :
+    voteCounts numClasses a = voteCounts numClasses b ∧
+    softOutput ratArith numClasses w a = softOutput ratArith numClasses w b ∧
+    predictClass ratArith numClasses w a = predictClass ratArith numClasses w b :=
+  prediction_determined_of_boundaryOk hk ha hb numClasses w
+
+/-- **knn_prediction_not_determined_on_ties.**  With a tie in distance across the k-th boundary between points of
+different labels the prediction is NOT well defined: two valid selections of the same data predict differently.
+(The tree back-end resolves such ties by (distance, node address, position in the leaf), the exhaustive one by its
+heap; the harness therefore compares the two back-ends only where `BoundaryOk` holds.) -/
+theorem knn_prediction_not_determined_on_ties :
+    ∃ (data a ra b rb : List (Rat × Nat)), IsKnnSel data a ra 2 ∧ IsKnnSel data b rb 2 ∧
+      predictClass ratArith 2 (fun _ => 1) a ≠ predictClass ratArith 2 (fun _ => 1) b :=
+  prediction_not_determined_on_ties
+
 /-! ### Non-vacuity -/
 
 /-- a uniform tree: three leaves `{0,1}` (duplicates), `{2}`, `{3}` -/
 def exTree : TTree :=
   .node .unq 0 true
-    (.node .unq 0 true (.leaf false 0 ⟨4, 0, [0, 1]⟩) (.leaf false 1 ⟨9, 1, [2]⟩))
-    (.leaf false 16 ⟨25, 2, [3]⟩)
+    (.node .unq 0 true (.leaf false 0 [⟨4, 0, [0, 1]⟩]) (.leaf false 1 [⟨9, 1, [2]⟩]))
+    (.leaf false 16 [⟨25, 2, [3]⟩])
 
 def exDist : Nat → Rat := fun i => [4, 4, 9, 25].getD i 0
 
 example : Fresh exTree ∧ LbAdm exDist exTree ∧ LeafUniform exDist exTree ∧ LeavesNonempty exTree := by
   refine ⟨?_, ?_, ?_, ?_⟩
   · simp [exTree, Fresh]
-  · simp [exTree, LbAdm, TTree.pts, exDist]; decide +kernel
+  · simp [exTree, LbAdm, TTree.pts, exDist, qpts]; decide +kernel
   · simp [exTree, LeafUniform, exDist]
   · simp [exTree, LeavesNonempty]
 
